@@ -164,7 +164,10 @@ def optDefect (fs : List FieldDecl) : List String :=
     if isNoneF y then
       (match x with
         | .enumLit _ => ["crash:enum-mapping"]
-        | .setOf _ _ _ | .setAny _ _ => ["optional-unchecked:set"]
+        | .setOf imm _ _ =>
+          -- the trusted instance holds a plain set: an ImmutableSet option no longer validates it
+          if imm then ["unnormalised:optional-immutable-set"] else ["optional-set:unproved"]
+        | .setAny _ _ => ["dropped:set-items"]
         | .struct c _ _ => if c.inline then ["optional-unchecked:non-none-option"] else []
         | .seqOf .list _ _ => []
         | .integer _ | .number _ | .float _ | .string _ _ _ | .boolean | .enumCls _ _ => []
@@ -369,16 +372,29 @@ def rawIssuesV : FieldDecl → PyVal → List String
   | .allOf _, _ => []
   | .notF _, _ => []
   | .anything, _ => []
-  | .seqPos _ _ _ _, _ => ["unnormalised:rebuilt-collection"]
-  | .setAny _ _, _ => ["unnormalised:rebuilt-collection"]
-  | .setOf _ _ _, _ => ["unnormalised:rebuilt-collection"]
-  | .tuplePos _ _, _ => ["unnormalised:rebuilt-collection"]
-  | .mapAny _, _ => ["unnormalised:rebuilt-collection"]
-  | .mapOf _ _ _, _ => ["unnormalised:rebuilt-collection"]
+  | .seqPos _ items _ _, v =>
+    "rebuilt-collection:unproved" :: (match seqLike v with | some xs => rawIssuesZip items xs | none => [])
+  | .setAny _ _, _ => ["rebuilt-collection:unproved"]
+  | .setOf _ item _, v =>
+    "rebuilt-collection:unproved"
+      :: (match seqLike v with | some xs => (xs.map (rawIssuesV item)).flatten | none => [])
+  | .tuplePos items _, v =>
+    "rebuilt-collection:unproved" :: (match seqLike v with | some xs => rawIssuesZip items xs | none => [])
+  | .mapAny _, _ => ["rebuilt-collection:unproved"]
+  | .mapOf kf vf _, v =>
+    "rebuilt-collection:unproved"
+      :: (match v with
+          | .dict kvs => (kvs.map fun kv => rawIssuesV kf kv.1 ++ rawIssuesV vf kv.2).flatten
+          | _ => [])
 termination_by structural f _ => f
 def rawIssuesAll : List FieldDecl → PyVal → List String
   | [], _ => []
   | f :: fs, v => rawIssuesV f v ++ rawIssuesAll fs v
+termination_by structural fs _ => fs
+def rawIssuesZip : List FieldDecl → List PyVal → List String
+  | [], _ => []
+  | _ :: _, [] => []
+  | f :: fs, x :: xs => rawIssuesV f x ++ rawIssuesZip fs xs
 termination_by structural fs _ => fs
 end
 
